@@ -5,7 +5,7 @@
 use super::common::*;
 use crate::{
     ctx::{Ctx, Tier},
-    exec::{Alter, Cap, Config, Exec, Msg, Op, Side},
+    exec::{Alter, Cap, Config, Exec, Msg, Op, Side, WireMeta},
     seam::Backend,
     sess::{self, Mode},
 };
@@ -100,6 +100,17 @@ pub fn check_exec(cfg: &Config, ops: &[Op], probe: usize) -> (Option<(String, St
     };
     let Some(w) = e.wires[writer.idx()].last() else { return (None, false) };
     if let Some(buf) = &st.err_buf {
+        // the other decrypted field of a handshake message: the sender's static public key
+        if let (Op::HsRead { .. }, WireMeta::Hs { pos, .. }) = (&st.op, &w.meta) {
+            let has_enc_s = refnoise::state::field_map(&e.proto, *pos, 0).iter().any(|f| f.kind == refnoise::state::FieldKind::S && f.encrypted);
+            if let (true, Some(sk)) = (has_enc_s, &cfg.s_priv[writer.idx()]) {
+                if let Some(pk) = e.proto.dh.pubkey(sk) {
+                    if let Some(off) = leaks(buf, &pk) {
+                        return (Some(("the output buffer of a rejected HsRead contains the decrypted static key of the rejected message".to_string(), format!("{} {:?}: key window at offset {off}, buffer {} bytes, payload {} bytes", cfg.name, cfg.backend[0], buf.len(), w.payload.len()))), true);
+                    }
+                }
+            }
+        }
         if let Some(off) = leaks(buf, &w.payload) {
             return (Some((format!("the output buffer of a rejected {} contains plaintext of the rejected message", sess::op_kind(&st.op).split('(').next().unwrap_or("read")), format!("{} {:?}: plaintext window at offset {off}, buffer {} bytes, payload {} bytes", cfg.name, cfg.backend[0], buf.len(), w.payload.len()))), true);
         }
@@ -158,7 +169,7 @@ pub fn run(tier: Tier) -> i32 {
     // the whole thorough alphabet costs a few seconds: both tiers run it
     let quick = false;
     let _ = ctx.quick();
-    ctx.set_rule("case = (cipher x backend, read path in {handshake payload, stateful transport, stateless transport, Cipher::decrypt directly}, plaintext length in {4,16,17,64,1000}, alteration: every bit of the tag, every bit (stride 5 above 17 bytes) of the first 64 body bytes, wrong nonce, wrong ad, output buffer length in {pt, ct-1, ct, ct+1, 2*ct}); oracle: after Err the canary-filled output buffer contains no 8-byte (4 for short plaintexts) window of the rejected message's plaintext. non-trivial = the read was rejected");
+    ctx.set_rule("case = (cipher x backend, read path in {handshake payload, stateful transport, stateless transport, Cipher::decrypt directly}, plaintext length in {4,16,17,64,1000}, alteration: every bit of the tag, every bit (stride 5 above 17 bytes) of the first 64 body bytes, wrong nonce, wrong ad, output buffer length in {pt, ct-1, ct, ct+1, 2*ct}); handshake messages with an encrypted static key before the payload (XX, IK, IX, XK, KX, X x 25519/P256 x payload {0,4,20,100}) altered in the payload body/tag only x 12 buffer sizes, where neither the payload nor the decrypted static key may appear; oracle: after Err the canary-filled output buffer contains no 8-byte (4 for short plaintexts) window of the rejected message's plaintext. non-trivial = the read was rejected");
     let mut cases: Vec<(CipherAlg, Backend, Path, usize, Alter, bool, usize)> = vec![];
     for (c, b) in cipher_backends() {
         for path in [Path::HandshakePayload, Path::Stateful, Path::Stateless] {
@@ -205,6 +216,56 @@ pub fn run(tier: Tier) -> i32 {
             ctx.violation(sig, d, json!({"kind": "exec", "config": cfg, "ops": ops, "probe": probe}));
         }
     });
+    // handshake messages that carry an encrypted static key before the payload (XX 2nd/3rd, IK 1st/2nd... message):
+    // the alteration is confined to the payload's body or tag, so the key field decrypts and the message is
+    // rejected afterwards; neither the key nor the payload plaintext may be in the caller's buffer
+    let mut scases: Vec<(CipherAlg, Backend, DhAlg, &str, usize, usize, Alter, usize)> = vec![];
+    for (c, b) in cipher_backends() {
+        for dh in [DhAlg::X25519, DhAlg::P256] {
+            for (pat, k) in [("XX", 1usize), ("XX", 2), ("IK", 0), ("IX", 1), ("XK", 2), ("KX", 1), ("X", 0)] {
+                for plen in [0usize, 4, 20, 100] {
+                    let p = proto(pat, &[], dh, c, HashAlg::Blake2s);
+                    let fm = refnoise::state::field_map(&p, k, plen);
+                    let Some(pf) = fm.iter().find(|f| f.kind == refnoise::state::FieldKind::Payload) else { continue };
+                    let total = pf.start + pf.len;
+                    let mut alts = vec![Alter::FlipLast, Alter::FlipBit((total - 16) * 8 + 3), Alter::FlipBit((total - 1) * 8 + 7)];
+                    if plen > 0 {
+                        alts.push(Alter::FlipBit(pf.start * 8));
+                        alts.push(Alter::FlipBit((pf.start + plen - 1) * 8 + 5));
+                    }
+                    let publen = dh.publen();
+                    for a in alts {
+                        for cap in [0usize, plen, plen + 15, plen + 16, publen, publen + 15, publen + 16, publen + 17, 100, 200, total, 2 * total] {
+                            scases.push((c, b, dh, pat, k, plen, a.clone(), cap));
+                        }
+                    }
+                }
+            }
+        }
+    }
+    scases.par_iter().for_each(|(c, b, dh, pat, k, plen, alt, cap)| {
+        let p = proto(pat, &[], *dh, *c, HashAlg::Blake2s);
+        let mut cfg = Config::honest(&p, 0);
+        cfg.backend = [*b, *b];
+        cfg.crypto_oracle = false;
+        let mut ops = sess::handshake_ops(&p, &[*plen, *plen, *plen, *plen]);
+        ops.truncate(2 * k + 2);
+        let w = sess::writer(*k);
+        let probe = 2 * k + 1;
+        ops[probe] = Op::HsRead { side: w.peer(), msg: Msg::Altered(Box::new(Msg::Last(w)), alt.clone()), cap: Cap::Exact(*cap) };
+        let (v, rejected) = check_exec(&cfg, &ops, probe);
+        ctx.add(&ctx.evaluations, 1);
+        ctx.add(&ctx.transitions, ops.len() as u64);
+        ctx.add(&ctx.traces, 1);
+        if rejected {
+            ctx.add(&ctx.nontrivial, 1);
+            ctx.count("handshake message with encrypted s rejected", 1);
+        }
+        if let Some((sig, d)) = v {
+            ctx.violation(sig, d, json!({"kind": "exec", "config": cfg, "ops": ops, "probe": probe}));
+        }
+    });
+    ctx.count("encrypted_static_cases", scases.len() as u64);
     for (c, b) in cipher_backends() {
         direct(&ctx, c, b == Backend::Ring);
     }
@@ -212,7 +273,6 @@ pub fn run(tier: Tier) -> i32 {
     let (c0, b0, p0, l0, a0, w0, cap0) = &cases[1000];
     ctx.sample(json!({"cipher": c0.name(), "backend": b0, "path": p0, "plen": l0, "alteration": a0, "wrong_nonce": w0, "out_cap": cap0}));
     ctx.assume("ciphertext or zeros left in the buffer are fine; only plaintext windows are judged; plaintexts shorter than 4 bytes are not judged (chance matches)");
-    ctx.assume("the handshake `s` field is decrypted into an internal buffer, never into the caller's: not a caller-visible path");
     *ctx.exhaustive.lock().unwrap() = Some(false);
     ctx.finish()
 }
